@@ -24,8 +24,14 @@ func judgeC04(p *rm.Parsed, mq rm.Request, r rm.Router, o rs.Outcome) string {
 		return "unknown route id"
 	}
 	toks := p.Full[si][ri]
-	ok, want := rm.PathMatches(toks, mq.Path, r)
-	if !ok {
+	var want map[string]string
+	matched := false
+	for _, reading := range r.Readings() {
+		if matched, want = rm.PathMatches(toks, mq.Path, reading); matched {
+			break
+		}
+	}
+	if !matched {
 		return "" // an unsound invocation is C01's violation, not C04's
 	}
 	if !h.EqMap(inv.Params, want) {
